@@ -34,6 +34,13 @@ MUT = [
     ('c02_set_cell_inplace_stale_width', 'C02', True, 'Row.set_cell beyond the end: the padding run enters _rmap with repeat 1',
      [(RW, '        elif diff > 0:\n            self.append_cell(Cell(repeated=diff), _repeated=diff, clone=False)\n            cell_back = self.append_cell(cell, _repeated=repeated, clone=clone)',
        '        elif diff > 0:\n            self.append_cell(Cell(repeated=diff), _repeated=1, clone=False)\n            cell_back = self.append_cell(cell, _repeated=repeated, clone=clone)')]),
+    ('c02_live_column_setter_no_owner', 'C02', True, 'Column.repeated setter without the refresh of the table that handed the live column out (the F8 repair removed for columns)',
+     [(TB, '        owner = getattr(self, "_owner", None)\n        if owner is not None:\n            owner._compute_table_cache()\n        current: Element = self', '        owner = getattr(self, "_owner", None)\n        if owner is not None:\n            pass\n        current: Element = self')]),
+    ('c02_row_rstrip_no_recompute', 'C02', True, 'Row.rstrip without `_compute_row_cache()` (the live wrapper keeps the map of the unstripped row)',
+     [(RW, '            self.delete(cell)\n        self._compute_row_cache()\n        self._indexes["_rmap"] = {}\n', '            self.delete(cell)\n        self._indexes["_rmap"] = {}\n')]),
+    ('c02_set_span_keeps_row_cache', 'C02', True, 'set_span puts the row-wrapper cache it had before the write back in place ("keep the cache warm"): wrappers of replaced row elements survive',
+     [(TB, '        # replace cells in table\n        self.set_cells(cells, coord=start, clone=False)\n        return True\n\n    def del_span',
+       '        # replace cells in table\n        saved = dict(self._indexes["_tmap"])\n        self.set_cells(cells, coord=start, clone=False)\n        self._indexes["_tmap"] = saved\n        return True\n\n    def del_span')]),
     ('seeded_C02-1', 'C02', True, 'independent: set_item_in_vault pops only the replaced slot from the cache when the write hits the first position of a run', 'seeded/C02-1/patch.diff'),
     ('seeded_C02-2', 'C02', True, 'independent: delete_item_in_vault `new_repeated > 1` (a run of exactly two)', 'seeded/C02-2/patch.diff'),
     ('seeded_C08-1_on_C02', 'C02', True, 'independent: set_item_in_vault pops only the slot of the replaced item', 'seeded/C08-1/patch.diff'),
@@ -59,6 +66,13 @@ MUT = [
      [(TB, '            if y > end:\n                return\n            row.y = y\n            yield row', '            if y > end:\n                return\n            row.y = y - start\n            yield row')]),
     ('c08_get_column_no_x', 'C08', True, 'get_column without `column.x = x`',
      [(TB, '        if column is None:\n            raise ValueError\n        column.x = x\n        return column', '        if column is None:\n            raise ValueError\n        return column')]),
+    ('c08_filter_style_ignored_in_row', 'C08', True, 'Row.get_cells(style=): the style test is skipped (filtered getters)',
+     [(RW, '            # Filter the cells with the style\n            if style and style != cell.style:\n                continue\n            cells.append(cell)', '            cells.append(cell)')]),
+    ('c08_column_cells_filtered_keep_repeat', 'C08', True, 'get_column_cells with a filter: the cell keeps its column repeat (only the filtered branch)',
+     [(TB, '            if cell is None:\n                raise ValueError\n            if cell.repeated is not None:\n                cell.repeated = None\n', '            if cell is None:\n                raise ValueError\n')]),
+    ('c08_get_rows_filter_drops_next', 'C08', True, 'get_rows(style=/content=): a rejected row also hides the row after it',
+     [(TB, '        rows = []\n        for row in self.traverse(start=y, end=t):\n            if content and not row.match(content):\n                continue',
+       '        rows = []\n        walker = self.traverse(start=y, end=t)\n        for row in walker:\n            if content and not row.match(content):\n                next(walker, None)\n                continue')]),
     ('seeded_C08-3', 'C08', True, 'independent: _yield_odf_rows duplicates the copy it has just yielded (visible only under lazy consumption of traverse())', 'seeded/C08-3/patch.diff'),
     ('c08_row_traverse_copies_previous', 'C08', True, 'Row.traverse(): every further cell of a run is a copy of the copy yielded before (the F112 repair removed, unbounded branch only)',
      [(RW, '                    if cell is None:\n                        cell_copy = Cell()\n                    else:\n                        cell_copy = cell.clone\n                        if repeated > 1:\n                            cell_copy.repeated = None\n                    cell_copy.y = self.y\n                    cell_copy.x = x\n                    x += 1\n                    yield cell_copy',
